@@ -352,6 +352,18 @@ func TestC05Rapid(t *testing.T) {
 			// miss/insert cycles of the shared pattern cache while the others are reading it
 			c := &xast.Call{Name: "concat"}
 			n := rapid.IntRange(2, 4).Draw(rt, "npat")
+			if rapid.IntRange(0, 2).Draw(rt, "samepat") == 0 {
+				// ONE pattern - one where leftmost-first and leftmost-longest differ - used by two
+				// calls, the first of which refers to the whole match ($0): what the first call
+				// does with the cached regexp must not show in the second
+				pat := rapid.SampledFrom([]string{"a|ab", "ab|abab", "a+?", "b|ba", "(?:a|ab)b?"}).Draw(rt, "ambpat") + "|y{" + fmt.Sprint(rapid.IntRange(1, 900).Draw(rt, "mpatn")) + "}"
+				r1 := rapid.SampledFrom([]string{"[$0]", "$0", "<$0>-"}).Draw(rt, "wholematch")
+				c.Args = append(c.Args, &xast.Call{Name: "replace", Args: []xast.Expr{&xast.Str{S: "abab"}, &xast.Str{S: pat}, &xast.Str{S: r1}}},
+					&xast.Call{Name: "replace", Args: []xast.Expr{&xast.Str{S: "abab"}, &xast.Str{S: pat}, &xast.Str{S: "-"}}})
+				re := regexp.MustCompile(pat)
+				alone = fmt.Sprintf("%T(%v)", "", re.ReplaceAllString("abab", r1)+re.ReplaceAllString("abab", "-"))
+				n = 0
+			}
 			for i := 0; i < n; i++ {
 				pat := rapid.SampledFrom(regexPatterns).Draw(rt, "mpat") + "|y{" + fmt.Sprint(rapid.IntRange(1, 900).Draw(rt, "mpatn")) + "}"
 				c.Args = append(c.Args, &xast.Call{Name: "replace", Args: []xast.Expr{&xast.Str{S: "abab"}, &xast.Str{S: pat}, &xast.Str{S: "-"}}})
